@@ -17,7 +17,7 @@ exchange bursts (corner N16, outside "tuned" in the statement); `Spec.isRecipien
 import OsmoVerif.Lemmas.WorldFwd
 
 namespace OsmoVerif.Props.C02
-open OsmoVerif OsmoVerif.World OsmoVerif.Spec
+open OsmoVerif OsmoVerif.World OsmoVerif.Spec OsmoVerif.World.Examples
 
 /-- who must receive, spelled out: another transceiver, powered on, listening in frame `fn` on the
 frequency the sender transmits on in frame `fn` -/
@@ -179,5 +179,43 @@ and leaves the world alone -/
 theorem idle_sender_silent (w : World) (j fn : Nat) (t : Trx) (hj : w.trxs[j]? = some t)
     (hidle : t.running = false) : clckTick w j fn = .ok (w, [], 0) := by
   simp only [clckTick, hj, hidle, Bool.false_eq_true, not_false_eq_true, if_true]
+
+/-! ### non-vacuity: a concrete world (`World.Examples.world`)
+
+seven transceivers: the BTS (0, sender), an MS tuned to it (1, v1), the same powered off (2), one
+listening elsewhere (3), one on version 0 with two burst losses pending on even frames (4), a
+muted one (5, v1) and one with FAKE_RSSI/TOA/CI windows (6, v1); a normal burst in frame 52 -/
+
+/-- all hypotheses of the theorems hold there -/
+example : FreqOk world 52 ∧ DistinctDataPorts world ∧ (∀ t ∈ world.trxs, DropWF t) ∧
+    (∀ b ∈ nbBits, b < 256) ∧
+    (∀ k ∈ recipients world 0 52, ∀ r, world.trxs[k]? = some r →
+      RadioOk bts r (burst 52).pwr nbBits.length) ∧
+    (forwardMsg world 0 (burst 52)).isOk = true := by
+  refine ⟨?_, ?_, ?_, ?_, ?_, ?_⟩ <;> decide +kernel
+
+/-- the sender, the idle and the detuned transceiver are no recipients, the other four are -/
+example : recipients world 0 52 = [1, 4, 5, 6] := by decide +kernel
+
+/-- datagrams per DATA peer: one each for 1, 5 (NOPE.ind) and 6; none for the sender, the idle, the
+detuned one and for 4 (burst loss on a version-0 link) -/
+example : [bts, ms, msIdle, msDetuned, msDrop, msMuted, msFake].map
+    (fun t => deliveredTo t (outOf (forwardMsg world 0 (burst 52)))) = [0, 1, 0, 0, 0, 1, 1] := by
+  decide +kernel
+
+/-- `routing_exact` applied to that world -/
+example : ∃ w' out, forwardMsg world 0 (burst 52) = .ok (w', out) ∧
+    ∀ k tk, world.trxs[k]? = some tk →
+      deliveredTo tk out =
+        if k ∈ recipients world 0 52 ∧ ¬ (suppressed bts tk 52 = true ∧ tk.hdrVer = 0) then 1 else 0 := by
+  obtain ⟨⟨w', out⟩, h⟩ := exists_of_isOk (forwardMsg world 0 (burst 52)) (by decide +kernel)
+  refine ⟨w', out, h, fun k tk hk => ?_⟩
+  exact routing_exact world 0 (burst 52) bts 52 2 nbBits w' out rfl rfl rfl rfl (by decide +kernel)
+    (by decide +kernel) (by decide +kernel) (by decide +kernel) (by decide) (by decide) (by decide)
+    (by decide) (by decide +kernel) h k tk hk
+
+/-- hopping: the BTS hops over two frequencies (HSN 5); who receives depends on the frame number -/
+example : recipients worldHop 0 0 = [2] ∧ recipients worldHop 0 1 = [1] ∧
+    FreqOk worldHop 0 ∧ FreqOk worldHop 1 := by decide +kernel
 
 end OsmoVerif.Props.C02
